@@ -1018,7 +1018,10 @@ class StmtGen:
                     s = s.Else(*self.stmts(targets, depth - 1))
                 out.append(s)
             else:
-                test = self.eg.atom() if self.eg.tame else self.eg.gen(r.randint(0, 1))
+                if hasattr(self.eg, "case_test"):
+                    test = self.eg.case_test()
+                else:
+                    test = self.eg.atom() if self.eg.tame else self.eg.gen(r.randint(0, 1))
                 n_t = min(len(test), 4)
                 keys = r.sample(range(0, 1 << n_t), k=min(r.randint(1, 4), 1 << n_t))
                 cases = {}
